@@ -341,6 +341,55 @@ def project_subset_config(h, mesh, spec, cells, free=None):
                 h.zero('project(u_h)[%d] == coefficient of u_h (zero outside the cells)' % i, (y[i] if np.isfinite(y[i]) else 1e9) - xs[i], scale=10.0)
 
 
+def project_facets_config(h, mesh, spec, facets=None, free=None):
+    """FacetBasis.project(trace of u_h) with the solve cut: the kept set is the DOFs attached to the facets of the basis (or of the
+    given subset), no kept DOF has a vanishing boundary-mass diagonal, and the condensed equations hold at the coefficients of u_h."""
+    import skfem as S
+    import skfem.utils as U
+    with warnings.catch_warnings():
+        warnings.simplefilter('ignore')
+        install(h)
+        m = make_mesh(h, mesh, free=free)
+        e = make_elem(spec)
+        dt = object if h.sym_mode else np.float64
+        fb = S.FacetBasis(m, e)
+        N = int(fb.N)
+        sel = None if facets is None else np.asarray(fb.find)[list(facets)].astype(np.int32)
+        I_want = sorted(int(i) for i in np.asarray(fb.get_dofs(facets=(fb.find if sel is None else sel)).flatten()))
+        x = h.sym('x', (N,), nominal=(np.arange(N) * 5 % 7) - 2.5)
+        uh = fb.interpolate(x)
+        h.sample(dict(mesh=mesh, element=spec, facets=None if facets is None else list(facets), N=N, kept=len(I_want)))
+        kw = {} if sel is None else dict(facets=sel)
+        if h.sym_mode:
+            seen = {}
+            real_solve = U.solve
+            U.solve = lambda A, b, x=None, I=None, **k_: seen.update(A=A, b=b, x=x, I=I) or np.zeros(N, dtype=object)
+            h.stub('skfem.utils.solve inside FacetBasis.project -> spy recording the system handed to the solver (the solve is cut)')
+            try:
+                fb.project(uh, dtype=dt, **kw)
+            finally:
+                U.solve = real_solve
+            I = np.asarray(seen['I'])
+            h.concrete('kept set == DOFs attached to the facets', sorted(int(i) for i in I) == I_want)
+            A, b = seen['A'], np.asarray(seen['b'])
+            Ad = A.toarray() if hasattr(A, 'toarray') else np.asarray(A)
+            if sel is None:
+                for k, i in enumerate(I):
+                    h.nonzero_somewhere('kept DOF %d has a non-vanishing boundary-mass diagonal' % i, Ad[k, k])
+                res = np.asarray(A @ x[I]) - b
+                for k, i in enumerate(I):
+                    h.zero('condensed projection equation of kept DOF %d holds at the coefficients of u_h' % i, res[k])
+        else:
+            y = np.asarray(fb.project(uh, **kw), dtype=float)
+            h.concrete('kept set == DOFs attached to the facets', True)
+            h.concrete('projection is finite', bool(np.isfinite(y).all()))
+            if sel is None:
+                for i in I_want:
+                    h.zero('project(trace of u_h)[%d] == coefficient of u_h' % i, y[i] - x[i], scale=10.0)
+            outside = [i for i in range(N) if i not in I_want]
+            h.concrete('DOFs not attached to the facets stay zero', all(abs(y[i]) < 1e-12 for i in outside))
+
+
 def build_configs(tier, seed):
     quick = tier == 'quick'
     cfgs = []
@@ -385,6 +434,9 @@ def build_configs(tier, seed):
     add('projection/tri3fan/ElementTriP2/subset:1,2', projection_config, mesh='tri3fan', spec='ElementTriP2', kind='subset:1,2', free=[1, 4])
     add('project/tri3fan/ElementTriP2/cells=1,2', project_subset_config, mesh='tri3fan', spec='ElementTriP2', cells=[1, 2], free=[1, 4])
     add('project/tri3fan/ElementTriP1/cells=2', project_subset_config, mesh='tri3fan', spec='ElementTriP1', cells=[2])
+    add('project-facets/tri2/ElementTriP2', project_facets_config, mesh='tri2', spec='ElementTriP2', free=[3])
+    add('project-facets/tri2/ElementTriP1/facets=0,2', project_facets_config, mesh='tri2', spec='ElementTriP1', facets=[0, 2])
+    add('project-facets/line3perm/ElementLineP2', project_facets_config, mesh='line3perm', spec='ElementLineP2')
     add('project/tri4patch/ElementTriP2/cells=0,2', project_subset_config, mesh='tri4patch', spec='ElementTriP2', cells=[0, 2], free=[4])
     return cfgs
 
